@@ -29,8 +29,8 @@ RULE = ('bfs depth<=2; transitions = requests issued; a raising transition is no
 ASSUMPTIONS = ['FST objects passed as code are built fresh for every request (they are consumed)',
                'KeyboardInterrupt-like asynchronous faults are out of scope']
 BOUNDS = {
-    'quick': '44 programs; depth 1: full fault alphabet (22 fault kinds at every node/list field) + 1-code edit alphabet; '
-             'depth 2: after every distinct valid first edit, the reduced (lite) fault alphabet',
+    'quick': '49 programs; depth 1: full fault alphabet (25 fault kinds at every node/list field and at the root) + 1-code edit alphabet; '
+             'depth 2: after every distinct valid first edit (replace, remove, insert, slice put, comment put), the reduced (lite) fault alphabet',
     'thorough': 'quick + depth 2 after the 3-code alphabet with 2 forms, faults with all option settings',
 }
 
@@ -279,7 +279,7 @@ def run_shard(desc, tier, res):
     import fst
     import pfstmc.explore as XX
     src0 = PROGRAMS[desc['prog']]
-    a1 = dict(nk=1, nks=1, forms=('src',), opts=({},)) if tier == 'quick' else dict(nk=6, nks=3, opts=({}, {'trivia': False}))
+    a1 = dict(nk=1, nks=1, forms=('src',), opts=({},), kinds=('replace', 'remove', 'insert', 'put_slice', 'line_comment')) if tier == 'quick' else dict(nk=6, nks=3, opts=({}, {'trivia': False}))
     a2 = dict(nk=1, nks=1, forms=('src',), opts=({},))
 
     def enum(src, d):
